@@ -112,6 +112,15 @@ Theorem C04_bdp_update_legal : forall cfg ops s L n o s',
 Proof. exact new_limit_legal. Qed.
 Print Assumptions C04_bdp_update_legal.
 
+(* New streams ([ORelease]: the HEADERS are queued, possibly long after NewStream was called and
+   after BDP updates in between): the stream enforces exactly the SETTINGS_INITIAL_WINDOW_SIZE
+   the peer knows at that moment, so the theorems above hold for it from a fresh ledger. *)
+Theorem C04_new_stream_window : forall cfg ops s L o s',
+  fin cfg ops = Some (s, L) -> stepk s ORelease = (o, s') ->
+  siw L = iws s /\ limit s' = siw L /\ pd s' = 0 /\ pu s' = 0 /\ delta s' = 0 /\ dead s' = false.
+Proof. exact new_stream_window. Qed.
+Print Assumptions C04_new_stream_window.
+
 (* The executable predicate that is evaluated on implementation traces (clauses 1-4, 7-10;
    5 and 6 are the refuted sentences above) holds on every trace of the model, for every
    well-formed operation list; and well-formed lists are exactly those [fin] is defined on. *)
